@@ -34,6 +34,11 @@ def _malformed(kind, n):
         "idx-float": 1.5,
         "idx-array": np.array([1, 2]),
         "idx-bool": True,
+        "idx-npfloat": np.float64(1.7),
+        "idx-npfloat32": np.float32(2.5),
+        "idx-0dfloat": np.array(0.9),
+        "idx-npbool": np.bool_(True),
+        "idx-negfloat": np.float64(-0.4),
     }[kind]
 
 
@@ -69,7 +74,7 @@ def _harness(c, cfg):
         action = [0.25 + 0.05 * i for i in range(n)]
         inside = True
         entries = list(action)
-    elif kind.startswith("idx-np"):
+    elif kind in ("idx-np2", "idx-np3"):
         action = np.int64(int(kind[-1]))
         inside = True
         entries = None
@@ -254,6 +259,9 @@ def configs(tier):
     add(N=4, M=0, action="list-ok", delay=1, inject_at=1)
     add(N=4, M=0, action="2d", delay=0, inject_at=1)
     add(N=4, M=0, action="inf", delay=1, inject_at=1)
+    for kind_ in ("idx-npfloat", "idx-npfloat32", "idx-0dfloat", "idx-npbool", "idx-negfloat"):
+        add(N=4, M=0, action=kind_, delay=0, inject_at=1, space="discrete")
+    add(N=4, M=0, action="idx-npfloat", delay=1, inject_at=1, space="discrete")
     add(N=4, M=0, action="idx-np2", delay=0, inject_at=1, space="discrete")
     add(N=4, M=0, action="idx-np3", delay=1, inject_at=1, space="discrete")
     add(N=4, M=0, action="sym", delay=1, inject_at=1, two_contracts=True, cash_in_space=True, as_weights=False,
